@@ -1,6 +1,73 @@
 """C04 — non-determinism and conflicts are reported, never silently resolved."""
 from .. import gen, oracles
+from ..encode import ChartEnc
+from ..framework import Case
 from ..interp_prop import InterpProp
+
+
+def nested_template(rnd):
+    """an orthogonal state one of whose regions holds another orthogonal state; three (or more) transitions on
+    the same event from sources of varying depth: two in sibling regions of the inner orthogonal state (one of
+    them may leave its region, the inner orthogonal state, or stay), one in the other outer region"""
+    from sismic.model import BasicState, CompoundState, OrthogonalState, Statechart, Transition
+    letters = 'abcdefghijklmnopqrstuvwxyz'
+    used = set()
+
+    def nm():
+        while True:
+            n = ''.join(rnd.choice(letters) for _ in range(rnd.randint(2, 3)))
+            if n not in used:
+                used.add(n)
+                return n
+    sc = Statechart('n', preamble='x = 0\ny = 0\nv0 = False\nv1 = False\nseen = -1\nlast = -1')
+    root, P, R1, R2, Q, Q1, Q2, X = (nm() for _ in range(8))
+    sc.add_state(CompoundState(root, initial=P), None)
+    sc.add_state(OrthogonalState(P), root)
+
+    def chain(parent, depth_extra, leaf_names):
+        """a compound region with `depth_extra` wrapping compound layers and basic leaves at the bottom"""
+        cur = parent
+        for _ in range(depth_extra):
+            w = nm()
+            sc.add_state(CompoundState(w), cur)
+            if isinstance(sc.state_for(cur), CompoundState):
+                sc.state_for(cur).initial = sc.state_for(cur).initial or w
+            cur = w
+        for i, l in enumerate(leaf_names):
+            sc.add_state(BasicState(l, on_entry='x += 1'), cur)
+            if i == 0:
+                sc.state_for(cur).initial = l
+        return cur
+    sc.add_state(CompoundState(R1, initial=Q), P)
+    sc.add_state(CompoundState(R2), P)
+    sc.add_state(OrthogonalState(Q), R1)
+    sc.add_state(BasicState(X), R1)
+    sc.add_state(CompoundState(Q1), Q)
+    sc.add_state(CompoundState(Q2), Q)
+    a = [nm(), nm()]
+    b = [nm(), nm()]
+    c = [nm(), nm()]
+    chain(Q1, rnd.randint(0, 2), a)
+    chain(Q2, rnd.randint(0, 2), b)
+    chain(R2, rnd.randint(0, 3), c)
+    ev = 'e'
+    # the transition of the first inner region: stays, leaves its region, leaves the inner orthogonal state
+    sc.add_transition(Transition(a[0], rnd.choice([a[1], a[1], X, X, Q2, b[1], None]), event=ev, action='y += 1'))
+    sc.add_transition(Transition(b[0], rnd.choice([b[1], b[1], None, X]), event=ev, action='y += 1'))
+    sc.add_transition(Transition(c[0], rnd.choice([c[1], c[1], None]), event=ev, action='y += 1'))
+    if rnd.random() < 0.3:
+        sc.add_transition(Transition(rnd.choice([Q1, Q2, R1]), None, event=ev, guard='x > 100'))
+    # ways back, so that the situation arises again
+    sc.add_transition(Transition(X, Q, event='f'))
+    sc.add_transition(Transition(a[1], a[0], event='f'))
+    sc.add_transition(Transition(b[1], b[0], event='f'))
+    sc.add_transition(Transition(c[1], c[0], event='f'))
+    sc.validate()
+    ops = [['exec', 0, 0]]
+    for e in rnd.choice([['e'], ['e', 'f', 'e'], ['f', 'e', 'e'], ['e', 'e', 'f', 'e']]):
+        ops.append(['queue', 0, {'ev': e, 'data': []}])
+        ops.append(['exec', 0, 0])
+    return sc, ops
 
 
 class C04(InterpProp):
@@ -34,6 +101,16 @@ class C04(InterpProp):
             if op[0] == 'queue':
                 op[2]['ev'] = rnd.choice(['e', 'e', 'f'])
         return ops
+
+    def gen_case(self, rnd, tier):
+        if rnd.random() < 0.1:
+            sc, ops1 = nested_template(rnd)
+            if oracles.wf_json(ChartEnc(sc).json):
+                enc = ChartEnc(sc)
+                payload = {'kind': 'interp', 'charts': [enc.json],
+                           'ops': [['create', 0, self.ignore_contract, [], 0]] + ops1}
+                return Case(payload, {'charts': [sc]}, model_ok=enc.supported)
+        return super().gen_case(rnd, tier)
 
     def post_build(self, rnd, g, sc):
         for t in sc.transitions:
